@@ -108,7 +108,10 @@ class ComponentLevel2( ComponentLevel1 ):
     elif name not in name_info:
       _src, _line = inspect.getsourcelines( func )
       _src = "".join( _src )
-      _ast = ast.parse( compiled_re.sub( r'\2', _src ) )
+      # ... of the block itself: a def nested in its body is indented deeper
+      # and keeps its place
+      _indent = len(_src) - len(_src.lstrip(' '))
+      _ast = ast.parse( re.sub( r'^ {%d}(@|def\b)' % _indent, r'\1', _src, flags=re.M ) )
 
       name_info[ name ] = (False, _src, _line, inspect.getsourcefile( func ), _ast )
       name_rd[ name ]   = _rd   = []
